@@ -37,9 +37,19 @@ func NewNTLMAuth (database database.Database) (*NTLMAuth) {
         }
 }
 
-func (h *NTLMAuth) Authenticate(message *auth.NtlmRequest) (*auth.NtlmResponse, error) {
-	r := &auth.NtlmResponse{}
+func (h *NTLMAuth) Authenticate(message *auth.NtlmRequest) (r *auth.NtlmResponse, err error) {
+	r = &auth.NtlmResponse{}
 	r.Authenticated = false
+
+	// the NTLM message parsers panic on some malformed messages, which must
+	// not take the authentication service down
+	defer func() {
+		if p := recover(); p != nil {
+			h.removeContext(message.Session)
+			r = &auth.NtlmResponse{}
+			err = fmt.Errorf("Failed to process NTLM message: %v", p)
+		}
+	}()
 
 	if message.Session == "" {
 		return r, errors.New("Invalid (empty) session specified")
@@ -50,7 +60,7 @@ func (h *NTLMAuth) Authenticate(message *auth.NtlmRequest) (*auth.NtlmResponse, 
 	}
 
 	c := h.getContext(message.Session)
-	err := c.Authenticate(message.NtlmMessage, r)
+	err = c.Authenticate(message.NtlmMessage, r)
 
 	if err != nil || r.Authenticated {
 		h.removeContext(message.Session)
